@@ -200,9 +200,227 @@ func genC05Legacy(seed uint64, run int, tier string) *drv.Plan {
 	return p
 }
 
+// genC05Async: a writer with BACKGROUND pruning (and readers) under the
+// scheduler of C06: the pruner's deletions share the write batch with the
+// commits, so the physical writes of a deletion and of the commits that follow
+// it interleave in a schedule-dependent way; every boundary is a cut.
+func genC05Async(seed uint64, run int, tier string) *drv.Plan {
+	p := genC06b(seed^0xc05a, run, tier, func(b *drv.Bias) {
+		// larger trees, more versions and more deletions over several versions:
+		// one deletion is then several physical writes of its own
+		b.Tiny, b.Small, b.MediumMax = 5, 35, 48
+		b.MinVersions, b.MaxVersions = 4, 9
+		b.Prune = 70
+		b.BigValues = 20
+	})
+	r := sim.Sub(seed, "C05-async", run)
+	p.Mode = "async"
+	if r.Chance(1, 2) {
+		p.Mode = "async-bracket"
+	}
+	p.Config.AsyncPrune = true
+	p.Config.Flush = r.Pick(120, 150, 180, 220, 300, 400)
+	p.Config.QuantumUs = r.Pick(0, 200, 1000, 5000, 20000, 50000)
+	return p
+}
+
+// c05Async executes the concurrent run, then audits the disk image at the
+// boundaries between physical writes. Which of the writer's operations were
+// under way at a boundary is known from the write-log positions at their calls
+// and returns; the image must load, its latest version must be one whose commit
+// had at least been started and no older than the last one that had returned,
+// its oldest version must not lie above what the deletions requested so far
+// allow, and EVERY version it lists must be complete: contents, hashes, all
+// read paths. How far a deletion of several versions got is not judged here
+// (the listed finding); a damaged version is.
+func c05Async(p *drv.Plan) *Out {
+	lg := &c06Log{}
+	out := execC06x(p, lg)
+	out.Probes["mode.async-crash"]++
+	out.NonTrivial = false
+	if len(out.Violations) > 0 || out.Tainted || lg.sim == nil {
+		// trouble of the concurrent run itself is C06's subject
+		out.Violations = nil
+		if out.Tainted {
+			out.Foreign = &drv.Violation{Prop: "C06", Oracle: "C06.no-deadlock", Symptom: "hang", Class: p.Mode, Detail: "concurrent run did not end"}
+		}
+		return out
+	}
+	n := lg.sim.LogLen()
+	out.Stats["async_physical_writes"] = n
+	pick := map[int]bool{}
+	want := map[int]bool{}
+	for _, c := range p.Crashes {
+		want[c.Write] = true
+	}
+	r := drv.SubRand(p, "c05-async-cuts")
+	max := 24
+	if n <= max {
+		for c := 1; c <= n; c++ {
+			pick[c] = true
+		}
+	} else {
+		pick[n] = true
+		// boundaries inside a commit during which the pruner wrote are the
+		// interesting ones: all of them first, then a seeded sample
+		for _, sp := range lg.saves {
+			for c := sp.lo + 1; c < sp.hi && len(pick) < max; c++ {
+				pick[c] = true
+			}
+		}
+		for len(pick) < max {
+			pick[1+r.Intn(n)] = true
+		}
+	}
+	cuts := 0
+	seen := map[string]bool{}
+	for c := 1; c <= n; c++ {
+		if !pick[c] || (len(want) > 0 && !want[c]) {
+			continue
+		}
+		cuts++
+		out.Faults["crash.async-prune+commit"]++
+		if v := c05AsyncCut(p, lg, c, n, out); v != nil {
+			v.StepID = c
+			if !seen[v.Sig()] && len(out.Violations) < 4 {
+				seen[v.Sig()] = true
+				out.Violations = append(out.Violations, v)
+			}
+		}
+	}
+	out.Evals = cuts
+	if cuts == 0 {
+		out.Evals = 1
+	}
+	out.Stats["cuts_enumerated"] = cuts
+	out.NonTrivial = cuts >= 1 && len(lg.prunes) > 0
+	if len(lg.prunes) > 0 {
+		out.Probes["async-crash.with-deletion"]++
+	}
+	return out
+}
+
+func c05AsyncCut(p *drv.Plan, lg *c06Log, cut, n int, out *Out) *drv.Violation {
+	cls := "async-prune+commit"
+	var completed, started, maxReq, minFirst int64
+	inSave := false
+	for _, sp := range lg.saves {
+		if sp.hi <= cut && sp.n > completed {
+			completed = sp.n
+		}
+		if sp.lo < cut && sp.n > started {
+			started = sp.n
+		}
+		if sp.lo < cut && cut < sp.hi {
+			inSave = true
+		}
+	}
+	for _, sp := range lg.prunes {
+		if sp.lo < cut && sp.n > maxReq {
+			maxReq = sp.n
+		}
+		if sp.sync && sp.hi <= cut && sp.n+1 > minFirst {
+			minFirst = sp.n + 1
+		}
+	}
+	if inSave {
+		cls += "/in-commit"
+		out.Probes["async-crash.cut-inside-commit"]++
+	}
+	bad := func(symptom, detail string) *drv.Violation {
+		return &drv.Violation{Prop: "C05", Oracle: "C05.old-or-new", Symptom: symptom, Class: cls, Detail: fmt.Sprintf("background pruning: stop after physical write %d of %d (commits returned so far: up to version %d, started: up to %d, deletions requested: up to %d): %s", cut, n, completed, started, maxReq, detail)}
+	}
+	r := drv.SubRand(p, "c05-async", cut)
+	cfg := p.Config
+	cfg.AsyncPrune = false
+	w2 := drv.NewWorld(cfg)
+	w2.UseSim(lg.sim.ImageAt(cut))
+	w2.Fast = r.Chance(1, 2)
+	w2.Cache = r.Pick(0, 2, 1000)
+	for k := range lg.universe {
+		w2.Universe[k] = true
+	}
+	w2.M, w2.T = ref.NewVMap(), ref.NewTree()
+	defer w2.Cleanup()
+	if v := w2.Guard("C05", "C05.old-or-new", cls, func() *drv.Violation {
+		if err := w2.Open(); err != nil {
+			return bad("load-fails", fmt.Sprintf("Load() on the crash image: %v", err))
+		}
+		return nil
+	}); v != nil {
+		v.Class = cls
+		return v
+	}
+	var latest, first int64
+	if v := w2.Guard("C05", "C05.old-or-new", cls, func() *drv.Violation {
+		l, err := w2.Tree.GetLatestVersion()
+		if err != nil {
+			return bad("load-fails", fmt.Sprintf("GetLatestVersion: %v", err))
+		}
+		latest = l
+		if av := w2.Tree.AvailableVersions(); len(av) > 0 {
+			first = int64(av[0])
+		}
+		return nil
+	}); v != nil {
+		return v
+	}
+	if latest < completed || latest > started {
+		return bad("mixture", fmt.Sprintf("the image's latest version is %d", latest))
+	}
+	if latest > 0 && (first < 1 || first > maxReq+1 || first < minFirst || first > latest) {
+		return bad("mixture", fmt.Sprintf("the image's oldest version is %d (latest %d)", first, latest))
+	}
+	if latest > 0 && first > 1 && first < maxReq+1 {
+		out.Probes["async-crash.deletion-partly-done"]++
+	}
+	if latest > 0 && first > 1 && inSave {
+		out.Probes["async-crash.deletion-writes+cut-inside-commit"]++
+	}
+	m2, t2 := lg.M.Clone(), lg.T.Clone()
+	if latest == 0 {
+		m2, t2 = ref.NewVMap(), ref.NewTree()
+	} else {
+		if latest < m2.Latest {
+			m2.RollbackTo(latest)
+			t2.RollbackTo(latest)
+		}
+		m2.Load(latest)
+		t2.Load(latest)
+		if first > 1 {
+			m2.PruneTo(first - 1)
+			t2.PruneTo(first - 1)
+		}
+	}
+	w2.M, w2.T = m2, t2
+	if v := w2.Guard("C05", "C05.old-or-new", cls, func() *drv.Violation { return auditCrashState(w2) }); v != nil {
+		return bad("mixture", fmt.Sprintf("the image lists the versions %d..%d, but they are not all complete: %s", first, latest, firstLine(v.Detail)))
+	}
+	// the deletion requested last is repeated (synchronously), then one more commit
+	var steps []drv.Step
+	if maxReq >= first && maxReq < latest {
+		steps = append(steps, drv.Step{ID: 1 << 22, Op: drv.OpPrune, N: maxReq})
+	}
+	if w2.Clean() {
+		steps = append(steps, drv.Step{ID: 1<<22 + 1, Op: drv.OpSet, K: []byte("c05-extra"), V: []byte(fmt.Sprintf("x%d", cut))}, drv.Step{ID: 1<<22 + 2, Op: drv.OpSave})
+	}
+	for _, st := range steps {
+		if v := w2.Apply(st); v != nil {
+			return &drv.Violation{Prop: "C05", Oracle: "C05.retry", Symptom: "retry-diverges", Class: cls, Detail: fmt.Sprintf("background pruning: after a stop at write %d of %d (versions %d..%d) %s failed: %s", cut, n, first, latest, st.String(), v.Error())}
+		}
+	}
+	if v := w2.Guard("C05", "C05.retry", cls, func() *drv.Violation { return auditCrashState(w2) }); v != nil {
+		return &drv.Violation{Prop: "C05", Oracle: "C05.retry", Symptom: "retry-diverges", Class: cls, Detail: fmt.Sprintf("background pruning: after a stop at write %d of %d (versions %d..%d), the repeated deletion and one more commit: %s", cut, n, first, latest, v.Error())}
+	}
+	return nil
+}
+
 func execC05(p *drv.Plan) *Out {
 	if p.Mode == "big-import" {
 		return c05BigImport(p)
+	}
+	if p.Mode == "async" || p.Mode == "async-bracket" {
+		return c05Async(p)
 	}
 	var recs []*stepRec
 	var cur *stepRec
@@ -591,6 +809,9 @@ func init() {
 			}
 			if run%10 == 3 {
 				return genC05Legacy(seed, run, tier)
+			}
+			if run%10 == 7 {
+				return genC05Async(seed, run, tier)
 			}
 			// a third of the runs: second stops inside the recovery, and stops after
 			// which the application goes on differently (see checkCutN)
